@@ -795,8 +795,10 @@ def gen_to_float_code(rng, tier):
         emit(B, rng.choice(TO_FLOAT_MODES), signed(rng, rng.getrandbits(rng.randrange(1, 200)) + 1), rng.getrandbits(rng.randrange(1, 150)) + 1,
              rng.choice([1, 2, 3, 5, 10, 30, 64, 65, 128]))
     # (e) E1: precision extremes.  0 -> assertion; 1, W-1, W, W+1, 2W -> values; usize::MAX - k with a one-digit denominator ->
-    #     the allocation of the shifted numerator is refused; with a longer denominator and k < its digit count -> the usize
-    #     addition `precision + den_digits` overflows (debug build).  (2^31 .. 2^63: memory proportional to the precision.)
+    #     the allocation of the shifted numerator is refused; with a longer denominator and k < its digit count -> the sum
+    #     `precision.saturating_add(den_digits)` saturates (round 6, /repo 43925c0; it overflowed before): same refusal, and
+    #     k = digit count - 1, digit count, digit count + 1: the sum is usize::MAX exactly / just below.
+    #     (2^31 .. 2^63: memory proportional to the precision.)
     for B in bases:
         for num, den in ((0, 1), (1, 3), (-22, 7), (B ** 5 + 1, B ** 2 + 1)):
             for p in (0, 1, 63, 64, 65, 128):
@@ -805,7 +807,7 @@ def gen_to_float_code(rng, tier):
             emit(B, rng.choice(TO_FLOAT_MODES), signed(rng, rng.choice([1, 3, B + 1, 12345])), rng.choice([1, B - 1]), USIZE_MAX - k, spec=False)
         for dl in (2, 3, 5, 40, 140):
             den = B ** (dl - 1) + 1                     # ilog = dl - 1
-            for k in range(0, dl - 1, 1 if dl < 10 else 17):
+            for k in sorted(set(range(0, dl - 1, 1 if dl < 10 else 17)) | {dl - 2, dl - 1, dl, dl + 1}):
                 emit(B, rng.choice(TO_FLOAT_MODES), signed(rng, 3), den, USIZE_MAX - k, spec=False)
     yield from out
     # From<Repr> for FBig (mirrored): precision = max digit count, repr_div branches (exact, q = 0, short q, long q)
@@ -859,14 +861,64 @@ def gen_extreme_exponent(rng, tier):
                     continue
                 s2 = signed(rng, sg)
                 yield Case("f.to_f64", [dec(B), "HalfAway", hx(s2), dec(e)])
-                yield Case("f.to_f32", [dec(B), rng.choice(modes), hx(s2), dec(e)])
+                md = rng.choice(modes)
+                yield Case("f.to_f32", [dec(B), md, hx(s2), dec(e)])
+                # round 6: every extreme exponent is decided by the mirrored range test (`rangeExit`) before convert_base, in every
+                # base: the `.code` ops (real code vs mirrored code) are defined here as well
+                yield Case("f.to_f64.code", [dec(B), "HalfAway", hx(s2), dec(e)])
+                yield Case("f.to_f32.code", [dec(B), md, hx(s2), dec(e)])
                 if rng.random() < 0.3:
                     yield Case("fr.to_f32", [dec(B), hx(s2), dec(e)])
+                    yield Case("fr.to_f32.code", [dec(B), hx(s2), dec(e)])
                 if B == 2:
                     yield Case("f.tryto_f32", [hx(s2), dec(e)])
                     yield Case("f.tryto_f64", [hx(s2), dec(e)])
-                if e == ISIZE_MIN:         # (any other huge negative exponent makes to_int build B^|e|: memory proportional to |e|)
+                if e <= -(1 << 40):        # round 6: every exponent whose power B^|e| no allocation can hold (the debug assertion of
+                    #                          round_fract materialises it: finding); -2^31 .. -2^33 would take minutes and gigabytes instead
                     yield Case("f.to_int", [dec(B), rng.choice(modes), hx(s2), dec(e)])
+                    if rng.random() < 0.3:
+                        yield Case("fr.to_int", [dec(B), hx(s2), dec(e)])
+
+
+def gen_out_of_range(rng, tier):
+    """round 6 (/repo 1349a4b): `Repr::exponent_out_of_range(max_exp, min_exp)` decides +-inf / +-0 before any exponent
+    arithmetic in FBig/Repr::to_f32/to_f64.  Classes from its two tests, for both formats and every base:
+    `exponent >= max_exp` at max_exp - 1 / max_exp / max_exp + 1 and `exponent < 0 && exponent < min_exp - bit_len` at
+    min_exp - bit_len + {-2 .. 2}, significands of 1, 2, p-1 .. p+2, 64, 65, 200 bits (all-ones, 10..01, random), both signs,
+    every mode of to_f32; base 2 and 16 also through the mirrored `.code` ops on BOTH sides of each boundary (the early exit must
+    be unobservable there), bases 10 and 3 through them on the decided side."""
+    quick = tier == "quick"
+    for ty, max_exp, min_exp, p in (("f32", 128, -149 - 24, 24), ("f64", 1024, -1074 - 53, 53)):
+        for B in (2, 16, 10, 3):
+            for L in (1, 2, p - 1, p, p + 1, p + 2, 64, 65, 200):
+                sigs = sorted({(1 << L) - 1, (1 << (L - 1)) | 1, rng.getrandbits(L) | (1 << (L - 1)) | 1})
+                for sg in sigs:
+                    if sg % B == 0:
+                        sg += 1
+                    bl = sg.bit_length()
+                    es = [max_exp - 1, max_exp, max_exp + 1] + [min_exp - bl + d for d in (-2, -1, 0, 1, 2)]
+                    for e in es:
+                        if quick and rng.random() < 0.4:
+                            continue
+                        s2 = signed(rng, sg)
+                        # bases 10 / 3: the mirrored code is defined where the range test decides (before convert_base); beside the
+                        # boundary the general path goes through ln/exp (not mirrored)
+                        code = B in (2, 16) or e >= max_exp or (e < 0 and e < min_exp - bl)
+                        if ty == "f32":
+                            md = rng.choice(TO_FLOAT_MODES)
+                            yield Case("f.to_f32", [dec(B), md, hx(s2), dec(e)])
+                            yield Case("fr.to_f32", [dec(B), hx(s2), dec(e)])
+                            if code:
+                                yield Case("f.to_f32.code", [dec(B), md, hx(s2), dec(e)])
+                                yield Case("fr.to_f32.code", [dec(B), hx(s2), dec(e)])
+                            if B == 2:
+                                yield Case("f.tryto_f32", [hx(s2), dec(e)])
+                        else:
+                            yield Case("f.to_f64", [dec(B), "HalfAway", hx(s2), dec(e)])
+                            if code:
+                                yield Case("f.to_f64.code", [dec(B), "HalfAway", hx(s2), dec(e)])
+                            if B == 2:
+                                yield Case("f.tryto_f64", [hx(s2), dec(e)])
 
 
 def ratio_is_fixed():
@@ -888,6 +940,7 @@ def generate(rng, tier):
     yield from gen_float(rng, tier)
     yield from gen_to_float_code(rng, tier)
     yield from gen_extreme_exponent(rng, tier)
+    yield from gen_out_of_range(rng, tier)
 
 
 def nontrivial(c):
@@ -930,10 +983,14 @@ THEOREMS = ["Dashu.Props.C06." + n for n in [
     "fbig_to_f32_flag_iff_every_mode", "fbig_to_f64_flag_iff_every_mode", "fbig_to_float_error_sign_composition",
     "fbig_base_to_f32_normal_form", "fbig_base_to_f64_normal_form", "fbig_base_to_f64_panic_iff",
     "fbig_base_to_f32_panic_iff", "conv_constants_regenerated",
-    "rbig_to_float_decisions_regenerated", "rbig_to_float_precision_zero_panics", "rbig_to_float_zero",
+    "rbig_to_float_decisions_regenerated", "rbig_to_float_decisions_unsaturated", "rbig_to_float_saturated_shift",
+    "rbig_to_float_precision_zero_panics", "rbig_to_float_zero",
     "rbig_to_float_quotient_stage", "rbig_to_float_correct_when_fits", "rbig_to_float_directed_correct",
     "rbig_to_float_half_modes_counterexample", "fbig_from_rbig_is_one_rounding", "fbig_from_rbig_lossy_counterexample", "fbig_from_ibig_exact", "fbig_from_rbig_source_shape", "rbig_to_float_correct_when_quotient_short",
-    "rbig_to_float_correct_when_quotient_exact", "rbig_to_float_nearest_correct_unless_second_tie"]]
+    "rbig_to_float_correct_when_quotient_exact", "rbig_to_float_nearest_correct_unless_second_tie",
+    "fbig_to_float_range_test_regenerated", "fbig_to_f32_range_exit_unobservable", "fbig_to_f64_range_exit_unobservable",
+    "fbig_try_to_float_range_exit_unobservable", "fbig_to_float_range_exit_decides", "fbig_to_float_range_overflow_is_required",
+    "fbig_to_float_range_underflow_is_required", "fbig_to_float_range_underflow_directed_counterexample"]]
 EXTRA_AXIOMS = {}      # bv_decide was NOT needed: encode_correct is an arithmetic proof (propext, Classical.choice, Quot.sound only)
 
 REFINED = [
@@ -974,7 +1031,8 @@ REFINED = [
     "rational/src/third_party/dashu_float.rs Repr::to_float (RBig::to_float, Relaxed::to_float): MIRRORED statement by statement "
     "(Model/Conv/ToFloat.lean: precision assertion, zero, digit counts by ilog, the no-shift test and the shift amount as REGENERATED text, "
     "B == 2 shift / base.pow multiplication, truncated div_rem, first rounding by round_ratio, convert_int = Repr::new + repr_round, "
-    "and_then flag, >> shift, debug overflow check of precision + den_digits) and executed by the driver as `r.to_float.code` / "
+    "and_then flag, >> shift; since /repo 43925c0 the digit sum is precision.saturating_add(den_digits), regenerated as min(p + dd, 2^64 - 1): "
+    "rbig_to_float_decisions_unsaturated / rbig_to_float_saturated_shift) and executed by the driver as `r.to_float.code` / "
     "`rx.to_float.code` (one stored representation each: lowest terms / reduce2) against the real code — significand, exponent, precision, "
     "flag and panics; theorems for ALL inputs: the quotient stage (rbig_to_float_quotient_stage), the result meets the rounding contract of C03 "
     "for the exact value num/den in EVERY directed mode (rbig_to_float_directed_correct: two roundings in the same directed mode are one) and in "
@@ -987,6 +1045,16 @@ REFINED = [
     "(fbigFromRat, `f.from.rbig.code` / `f.from.relaxed.code`: value and precision, every mode); linked by theorem to C03: it is ONE rounding of "
     "num/den at precision max(digits num, digits den, 1) under the target's mode and lossless iff the dropped flag is Exact "
     "(fbig_from_rbig_is_one_rounding, by Float.reprDiv_contract); kernel-checked lossy instances (fbig_from_rbig_lossy_counterexample)",
+    "float/src/convert.rs Repr::exponent_out_of_range and the range test in front of FBig/Repr::to_f32/to_f64 (round 6, /repo 1349a4b): MIRRORED "
+    "(Model/Conv/Base.lean exponentOutOfRange CALLS the regenerated decision text; rangeExit; fbigToFloatCode / fbigToFloatBaseCode / "
+    "fbigTryToFloatCode are what the `.code` and `tryto` ops execute); PROVED unobservable in base 2 for every mode and both formats: the code with "
+    "the test returns bit for bit (value and flag) what the general path returns (fbig_to_f32/f64_range_exit_unobservable, "
+    "fbig_try_to_float_range_exit_unobservable), so every theorem about the general path is about the code as it is; call-site literals and "
+    "decision text regenerated (fbig_to_float_range_test_regenerated); kernel-computed instances at isize::MAX-7 / isize::MIN "
+    "(fbig_to_float_range_exit_decides); and for EVERY base B >= 2 the decided result is the REQUIRED one: Some(true) => +-inf with the truthful "
+    "AddOne/SubOne in every mode (fbig_to_float_range_overflow_is_required), Some(false) => +-0 NoOp in HalfEven/HalfAway/Zero "
+    "(fbig_to_float_range_underflow_is_required; the away-from-zero directed modes are the recorded finding: "
+    "fbig_to_float_range_underflow_directed_counterexample)",
     "integer/src/convert.rs try_to_unsigned / unsigned_from_words (all word sizes that are multiples of 8), "
     "integer/src/primitive.rs to_sign_magnitude / try_from_sign_magnitude (all widths), from_unsigned round trip",
 ]
@@ -1027,9 +1095,14 @@ RULE = ("Structured, built from the branch conditions of the code. encode/decode
         "head(p digits).d.mid with d in {0,1,B/2-1,B/2,B/2+1,B-1} and remainder fractions {0, 1, just below / at / just above 1/2, den-1} (both "
         "roundings steered, carries 99..9, double-rounding traps) over denominators {1,3,7,B,2B+1,B^3,7B,2^64+13}; B^k±1, k^n±1 (k of every bit "
         "length 2..129) operands; precisions 0 (assertion), 1, 63..65, 128, usize::MAX-k (k <= 40: allocation refused; k below the digit count of a "
-        "long denominator: usize addition overflow). Extreme isize exponents of the float source value (E1): +-2^31, +-2^32(+-k), +-2^61(+-1), "
+        "long denominator, and k = digit count - 1, digit count, digit count + 1: the saturating digit sum at / just below usize::MAX — same refusal). "
+        "Extreme isize exponents of the float source value (E1): +-2^31, +-2^32(+-k), +-2^61(+-1), "
         "+-2^62, isize::MAX-k, isize::MIN+k (k = 0..130) x bases {2,16,10,3} x significands of 1, 2, 24, 53, 60, 201 bits for "
-        "to_f32 (all modes) / to_f64 / Repr::to_f32 / TryFrom<FBig> for f32/f64, and to_int at isize::MIN. All call forms "
+        "to_f32 (all modes) / to_f64 / Repr::to_f32 / TryFrom<FBig> for f32/f64 — spec ops AND (round 6) the mirrored `.code` ops in every base (the "
+        "range test decides before convert_base) — and FBig/Repr::to_int at every exponent <= -2^40. Range test exponent_out_of_range(max_exp, min_exp) "
+        "(round 6): exponent in {max_exp-1, max_exp, max_exp+1} and min_exp - bit_len + {-2..2} for both formats x bases {2,16,10,3} x significands of "
+        "1, 2, p-1..p+2, 64, 65, 200 bits (all ones, 10..01, random) x both signs x every mode; bases 2/16 through the `.code` ops on both sides of "
+        "each boundary, bases 10/3 on the decided side. All call forms "
         "(owned/ref, RBig/Relaxed, FBig/Repr) are evaluated and must agree. Non-trivial := some operand is neither 0 nor ±1; distinct := distinct (op,args).")
 EXPLANATION = ("Centre: a machine-checked proof that f32/f64::encode of the current tree equals the IEEE-754 round-to-nearest-even specification "
                "(overflow, gradual underflow, ±0) with the true error sign for EVERY (mantissa, exponent) — the statement that exposed two mask "
@@ -1059,15 +1132,20 @@ LEVEL_TEXT = ("Lean 4 theorems (no bounds on mantissa, exponent, integer length 
               "and From<RBig|Relaxed> for FBig are mirrored and compared digit for digit with the real code; to_float is PROVED correctly rounded "
               "and truthfully flagged (C03's rounding contract for the exact rational) for all inputs in the four directed modes and, in every mode, "
               "whenever the first-rounded quotient fits the precision; its decision expressions and panic sites are regenerated (Gen/ConvToFloat.lean, "
-              "rbig_to_float_decisions_regenerated); From<RBig> for FBig is one rounding at max digit count (linked to C03's repr_div theorem).")
+              "rbig_to_float_decisions_regenerated); From<RBig> for FBig is one rounding at max digit count (linked to C03's repr_div theorem). "
+              "Round 6 (after 13 fix commits in /repo): the model follows the repaired code — saturating digit sum of Repr::to_float regenerated, the "
+              "range test exponent_out_of_range of FBig/Repr::to_f32/to_f64 mirrored, regenerated (decision text + call-site literals) and proved "
+              "unobservable in base 2 (the repaired conversions return what the general path returns, bit for bit).")
 LEVEL_NOTE = ("No bv_decide: all theorems depend only on propext/Classical.choice/Quot.sound (counterexamples: `decide +kernel`, propext only). "
               "Trusted: Lean kernel; the correspondence harness and generators (sampling) for model<->code; Rust cast/intrinsic semantics as "
               "listed in assumptions. The `*AsIs` models describe the pinned pre-fix code and occur only in counterexample theorems; the `.asis` "
               "ops that tie them to the code are generated only while the corresponding defect text is still present in /repo. Known findings "
               "(design-level, unrepaired): RBig::to_float double rounding; FBig->f32/f64 flags, subnormal double rounding and non-binary-base "
-              "assertions; From<RBig> for FBig lossy; isize overflow of the exponent arithmetic for source values with extreme exponents "
-              "(round 5; proposed_fixes/c06-extreme-exponent-to-float.diff). For those inputs the specification is evaluated at a clamped exponent "
-              "(|e| > 8192 + 2·bit_len: the IEEE result no longer depends on e) — a driver-level device, not a theorem. Observation (not a violation of C06 as worded): to_f32_fast/to_f64_fast can be up to 3 units off "
+              "assertions; From<RBig> for FBig lossy; FBig::to_int in DEBUG builds for exponents <= -2^40 (round_fract's debug assertion "
+              "materialises B^-exponent: out of memory; proposed_fixes/c06-round-fract-debug-assert-huge-precision.diff). Repaired in round 6 "
+              "(`fixed:` lines): isize overflow of the exponent arithmetic of to_f32/to_f64 (1349a4b), negation of isize::MIN in to_int (7e1bdaf), "
+              "usize overflow of precision + den_digits in RBig::to_float (43925c0). For extreme exponents the specification is evaluated at a clamped exponent "
+              "(|e| > 8192 + 2·bit_len: the IEEE result no longer depends on e) — a driver-level device; since round 6 backed by theorems for every base: beyond emax the specification is +-inf in every mode (fbig_to_float_range_overflow_is_required), below (qmin - prec) - bit_len it is +-0 in HalfEven/HalfAway/Zero (fbig_to_float_range_underflow_is_required); for the directed-away modes on the underflow side it remains a device. Observation (not a violation of C06 as worded): to_f32_fast/to_f64_fast can be up to 3 units off "
               "(doc says 1); TryFrom<UBig> for f32 refuses representable integers above 2^25 (conservative); to_f32_small has the u64::MAX "
               "saturation issue on 32-bit-word builds (not reachable with 64-bit words).")
 TECHNIQUE = "Lean 4 refinement proofs (arithmetic over Nat/Int, generic in the format constants) + kernel-decided counterexamples + differential correspondence model/spec vs real code"
